@@ -38,7 +38,13 @@ fn make_html_pool(xot: &mut Xot, reg: &mut Reg) -> HPool {
     attr_names.push(reg.name(xot, "selected", uris[1]));
     attr_names.push(reg.name(xot, "href", uris[4]));
     attr_names.push(reg.name(xot, "k", uris[5]));
-    HPool { pool: Pool { uris, prefixes, names, pi_names, attr_names } }
+    let (mut extra_prefixes, mut extra_uris, mut extra_attrs) = (vec![], vec![], vec![]);
+    for i in 0..24 {
+        extra_prefixes.push(reg.prefix(xot, &format!("x{}", i)));
+        extra_uris.push(reg.ns(xot, &format!("urn:x{}", i)));
+        extra_attrs.push(reg.name(xot, &format!("k{}", i), 0));
+    }
+    HPool { pool: Pool { uris, prefixes, names, pi_names, attr_names, extra_prefixes, extra_uris, extra_attrs } }
 }
 
 #[derive(Clone, Debug)]
